@@ -340,7 +340,7 @@ def judge_random(spec, rec):
 
 PARTS = [
     Part('names', 'hyp', judge_names, strategy=strat_names, budget={'quick': 5000, 'thorough': 100000}),
-    Part('history', 'enum', judge_history, items=items_history, exhaustive=True),
-    Part('history-inf', 'enum', judge_history_inf, items=items_history_inf, exhaustive=True),
-    Part('random', 'hyp', judge_random, strategy=strat_random, budget={'quick': 400, 'thorough': 8000}),
+    Part('history', 'enum', judge_history, items=items_history, exhaustive=True, prelude=False),
+    Part('history-inf', 'enum', judge_history_inf, items=items_history_inf, exhaustive=True, prelude=False),
+    Part('random', 'hyp', judge_random, strategy=strat_random, budget={'quick': 400, 'thorough': 8000}, prelude=False),
 ]
